@@ -17,6 +17,7 @@ ALL functions of the anchored modules of the property, not only over the functio
     falsy replacement   replace()/create() written as kwargs.get(k) or old
     collector overwrite d = defaultdict(list); d[k] = ... inside a loop
     stale system        a builder created from the ODE system read before the model was re-bound
+    lost update         statements = statements.reassign(..) / model = model.replace(..) never read on some path to a return
     loop-carried flag   (advisory) a flag tested and cleared in an inner loop but initialised outside the outer one
 """
 from __future__ import annotations
@@ -121,6 +122,9 @@ def run(chk, repo, pid):
         for dname, a in lints.defaultdict_overwrites(f.node)[0]:
             found.append(('collector overwritten', a.lineno, unparse(a)[:80],
                           f'`{dname}` collects values per key; the assignment replaces what earlier iterations collected'))
+        for d_, v_, how_ in lints.dead_pure_updates(f.node):
+            found.append(('lost update', d_.line, f'{d_.text()[:60]} ... {how_}',
+                          f'the new value of `{v_}` is never read on that path: the change it carries is dropped'))
         for b in ast.walk(f.node):
             if f.name in ('replace', 'create', 'derive') and isinstance(b, ast.BoolOp) and isinstance(b.op, ast.Or) \
                     and isinstance(b.values[0], ast.Call) and isinstance(b.values[0].func, ast.Attribute) \
@@ -138,4 +142,4 @@ def run(chk, repo, pid):
                 chk.violation(Y0, f.module.rel, f.qualname, f'loop-carried flag `{v}`',
                               'tested and cleared in an inner loop, initialised outside the outer loop', line=M.lineno,
                               advisory=True)
-    chk.instance(Y0, f'{nfun} functions of {len(mods)} anchored modules scanned for 12 defect shapes', n=nfun)
+    chk.instance(Y0, f'{nfun} functions of {len(mods)} anchored modules scanned for 13 defect shapes', n=nfun)
